@@ -39,7 +39,7 @@ def kjob(name, src, nt, slices, defines, mode='coop', timeout=900, desc='', unwi
     # kn > nt: additional thread objects that never run (constructed sleepers: pure queue state)
     return Job(name, src, 'sched', roots=KROOTS, defines=['NT=%d' % nt, 'KN=%d' % (kn or nt)] + defines, clang=KCLANG,
                ir2c=KSTUB + (['--cs-none'] if mode == 'coop' else ['--cs-atomic-only']), shims=['libc.c', 'sched.c'],
-               cbmc=['-DNT=%d' % nt, '-DSLICES=%d' % slices, '-DVERIF_SHARED_ERRNO'] + (['-DVERIF_SPIN_IS_DEADLOCK'] if mode == 'coop' else []), unwind=max(unwind, (kn or nt) + 1), unwindset=['f_sched.0:%d' % (slices + 1)], nochecks=False, timeout=timeout, mem_gb=mem_gb,
+               cbmc=['-DNT=%d' % nt, '-DSLICES=%d' % slices, '-DVERIF_SHARED_ERRNO'] + (['-DVERIF_SPIN_IS_DEADLOCK'] if mode == 'coop' else []), unwind=unwind, unwindset=['f_sched.0:%d' % (slices + 1)], nochecks=False,   # rt/kcontract.h and rt/sched.c are loop-free besides the slice loop timeout=timeout, mem_gb=mem_gb,
                desc=desc, bounds='%d threads, <= %d execution slices, %s scheduling' % (nt, slices, 'cooperative (switch at blocking calls)' if mode == 'coop' else 'pre-emptive at atomic operations'))
 
 # ---- contract-level sync layer (rt/ksync.h): clients of mutex / cv / semaphore
